@@ -16,5 +16,11 @@ class C09(TieCheck):
     def harness_args(self, tier):
         return ["tier=" + tier, "prop=C09"]
 
+    def extra(self, tier, seed, work, coverage):
+        """The Host also decides the 404 / 405 / OPTIONS answers (every method's lookup uses it): the dispatch
+        harness (hostname route sets, decorated Hosts) against the Dispatch model fed with the lookup table."""
+        import lib
+        return lib.dispatch_extra(work, coverage, tier)
+
 
 CHECK = C09()
